@@ -725,11 +725,16 @@ func (cs *ContractSet) loadFile(path string) error {
 			// extend func Name — adds (view-tagged) clauses to a contract declared in another block/file
 			curT, curA = nil, nil
 			kw, r2 := splitWord(rest)
-			if kw != "func" {
-				return fmt.Errorf("%s:%d: expected 'extend func <name>'", path, l.no)
+			if kw != "func" && kw != "extern" {
+				return fmt.Errorf("%s:%d: expected 'extend func <name>' or 'extend extern <key>'", path, l.no)
 			}
 			nm, _ := splitWord(r2)
 			key := pkg + "." + nm
+			if kw == "extern" {
+				// extend extern pkg.Type.Method — adds (view-tagged) clauses to a contract declared elsewhere under that absolute key
+				// (an extern of another file, or a func contract of another package)
+				key = nm
+			}
 			fc := cs.Funcs[key]
 			if fc == nil {
 				fc = &FuncContract{Key: key, Pkg: pkg, Loops: map[int]*LoopSpec{}, Opts: map[string]string{}, File: path, Line: l.no, Placeholder: true}
@@ -767,6 +772,7 @@ func (cs *ContractSet) loadFile(path string) error {
 				// the main block of a contract that an `extend` block referred to earlier
 				prev.Placeholder = false
 				prev.File, prev.Line, prev.Lemma = path, l.no, fc.Lemma
+				prev.Extern, prev.Params, prev.Results, prev.Pkg = fc.Extern, fc.Params, fc.Results, fc.Pkg
 				curF = prev
 				break
 			}
@@ -1216,6 +1222,34 @@ func (f *FuncContract) hasView(v string) bool {
 		}
 	}
 	return false
+}
+
+// applicable: the contract has something to say to a caller that selected view v ("" = none): clauses of the view
+// it will use, or a flag (pure / modifies *) that is not tied to a view. A contract that consists of clauses for OTHER
+// views only is not applicable: the callee is then inlined (always sound) instead of being replaced by an empty contract.
+func (f *FuncContract) applicable(v string) bool {
+	use := ""
+	if v != "" && f.hasView(v) {
+		use = v
+	}
+	if len(clausesFor(f.Requires, use)) > 0 || len(clausesFor(f.Ensures, use)) > 0 || len(f.modifiesFor(use)) > 0 {
+		return true
+	}
+	if f.ModAll || f.Pure {
+		return true
+	}
+	// extern / trusted blocks without any view-tagged clause keep their meaning (assumed contract `true`)
+	tagged := false
+	for _, c := range f.Requires {
+		tagged = tagged || c.View != ""
+	}
+	for _, c := range f.Ensures {
+		tagged = tagged || c.View != ""
+	}
+	for _, mv := range f.ModViews {
+		tagged = tagged || mv != ""
+	}
+	return (f.Extern || f.Trusted) && !tagged
 }
 
 func clausesFor(cs []*Clause, v string) []*Clause {
